@@ -1,11 +1,11 @@
 """C19 — code-table text maps every 'hex-id name' line; a supplied table is honoured."""
 from .. import vlib
 from ..vlib import cN, clist
-from ..translate import tr_handlers, tr_kevent
+from ..translate import tr_handlers, tr_kevent, tr_codes
 from . import pairing_common as pc
 from ..harness import dumps as D
 
-TRANSLATORS = [tr_kevent.translate, tr_handlers.translate]
+TRANSLATORS = [tr_kevent.translate, tr_handlers.translate, tr_codes.translate]
 MODEL_TARGETS = ['theories/TraceCodesCases.vo']
 PROOF_TARGETS = ['props/C19.vo']
 PROP_FILE = 'props/C19.v'
@@ -46,8 +46,10 @@ def gen_text(rng, malformed):
         line = [ord(c) for c in tok] + sep + name + tail + term
         if malformed:
             r = rng.random()
-            if r < 0.25:
+            if r < 0.15:
                 line = [ord(c) for c in tok] + term                               # no name
+            elif r < 0.25:
+                line = [ord(c) for c in rng.choice(['zz', '0x', 'g', '0xg1'])] + term   # no name and not a number: the id is read first
             elif r < 0.45:
                 line = [ord(c) for c in rng.choice(['0x', 'g1', 'x12', '12h', '0xg', 'zz'])] + sep + name + term
             elif r < 0.6:
